@@ -34,8 +34,10 @@ HEADER = ("global_options(['-DGLOBAL_C=1'], lang='c')\n"
           "environment={'VV_ONE': '1', 'VV_TWO': 'a b'})\n"
           "command('envlines', cmds=[[R, 'ENVC'], R + ' ENVD | ' + R + "
           "' ENVE'], environment={'VV_ONE': '2'})\n"
-          "build_step('envstep.txt', cmd=[R, 'ENVF', "
-          "'--verif-touch=envstep.txt'], environment={'VV_THREE': '3'})")
+          "envstep = build_step('envstep.txt', cmd=[R, 'ENVF', "
+          "'--verif-touch=envstep.txt'], environment={'VV_THREE': '3'})\n"
+          # a copy with a further dependency (the copy tool records its argv)
+          "copy_file('cpx.txt', source_file('d1.txt'), extra_deps=[envstep])")
 
 
 def steps_of(r, goals):
@@ -115,6 +117,7 @@ def compare(arg):
     try:
         for b in ('make', 'ninja'):
             r = sg.Runner(decls, b, HEADER)
+            r.p.env['CP'] = os.path.join(BIN, 'cplog') + ' -f'
             r.p.args = list(cargs)
             runs[b] = r
             c = r.configure_with(cenv)
@@ -124,7 +127,7 @@ def compare(arg):
                                'ninja': {'present': False},
                                'compdb': {'argv': []}, 'note': c['out']})
                 return events
-        goals = ['all', 'envchain', 'envlines', 'envstep.txt'] + [
+        goals = ['all', 'envchain', 'envlines', 'envstep.txt', 'cpx.txt'] + [
             d['name'] for d in decls if d['kind'] in ('alias', 'cmd')] + \
             [r.outs[n] for n in sorted(runs['make'].outs)] + ['tests']
         interm = {'.o', '.d', '.stamp', '.dir'}
